@@ -10,6 +10,7 @@ NOTE = ("Trusted base: Lean 4.33 kernel; axioms limited to propext/Classical.cho
         "stack and wall-clock are modelled or out of the model (DESIGN section 8).")
 
 CLAIMS = {
+ "C18": ("proof", "Machine-checked (Lean 4): is_subtype decides the inductive spec relation Subtype (hence reflexive; transitive on well-formed schemas), Value::compare is tree equality, variables_in_use = variable leaves, is_required = non-null without default, lookups return the definition of that name iff one exists (and type_map agrees under unique names), roots resolve to the schema definition's entries or the default names, possible_types = implementing/member objects, do_types_overlap = same type or intersecting possible sets, symmetric (Thm/C18.lean, 16 obligations). Tied to the code by exhaustive per-schema answer matrices of the real helpers compared with the model's, plus direct checks of reflexivity/transitivity/symmetry/tree-equality on the implementation's own answers.", "6 C18", "Lean theorems (decision procedures = inductive spec relations) + exhaustive differential matrices"),
  "C15": ("proof", "Machine-checked (Lean 4): for every schema, document and start context the model visitor's callback sequence equals the schema-independent pre/post-order traversal, is well nested with matching payloads, and child lists are visited in list order (Thm/C15.lean). The model is tied to the real visitor by a per-callback differential run (recording OperationVisitor vs compiled Lean driver) on generated documents over all pool schemas incl. one that knows none of the names.", "6 C15", "Lean theorem (refinement to traversal) + differential correspondence"),
  "C16": ("proof", "Machine-checked (Lean 4): the six-stack machine of the visitor is lexical scoping - from any start context it makes exactly the callbacks with exactly the context answers and stack depths of the environment-passing walk of Spec/Walk.lean, and returns the stacks it was given (Thm/C16.lean: snapshots_eq_walk, stacks_balanced, root resolution = specRoot). Tied to the code by comparing all six accessors and the (cfg-hooked) stack depths inside every callback and after the walk.", "6 C16", "Lean theorem (stack machine = lexical type environment) + differential correspondence"),
 }
